@@ -4,7 +4,7 @@ import re
 
 from acverif.core import compile_control, VERIF
 from acverif.mir import short, tstr, subterms
-from acverif.rl import CallGraph, is_call, operand_ty
+from acverif.rl import CallGraph, is_call, operand_ty, peel_all, expand_vars
 
 LEVEL = 'proof'
 EXPLANATION = """
@@ -183,31 +183,46 @@ def addr_uses(facts):
         if re.search(r'Pointer>::as_usize$', p):
             continue
         for bi, t in b.calls(helper):
-            # find the use of the destination
+            # find the uses of the destination, following plain copies into other locals
             d = t['dest']
             uses = []
-            for bj in b.live_blocks():
-                tt = b.term(bj)
-                if tt['k'] == 'call':
-                    for a in tt['args']:
-                        if a['k'] in ('copy', 'move') and a['p']['l'] == d['l']:
-                            uses.append(('call', bj, tt))
-                for st in b.blocks[bj]['stmts']:
-                    if st['k'] == 'assign':
-                        tx = str(st['r'])
-                        if "'l': %d," % d['l'] in tx or '"l": %d,' % d['l'] in tx:
-                            uses.append(('stmt', bj, st))
+            alias = [d['l']]
+            seen_l = set()
+            while alias:
+                cur = alias.pop()
+                if cur in seen_l:
+                    continue
+                seen_l.add(cur)
+                for bj in b.live_blocks():
+                    tt = b.term(bj)
+                    if tt['k'] == 'call':
+                        for a in tt['args']:
+                            if a['k'] in ('copy', 'move') and a['p']['l'] == cur and not a['p']['pr']:
+                                uses.append(('call', bj, tt))
+                    for st in b.blocks[bj]['stmts']:
+                        if st['k'] == 'assign':
+                            r0 = st['r']
+                            if r0['k'] == 'use' and r0['a']['k'] in ('copy', 'move') and r0['a']['p']['l'] == cur and not r0['a']['p']['pr'] and not st['p']['pr']:
+                                alias.append(st['p']['l'])
+                                continue
+                            tx = str(r0)
+                            if "'l': %d," % cur in tx or '"l": %d,' % cur in tx:
+                                uses.append(('stmt', bj, st))
             okuse = True
             if not uses:
                 okuse = False
+
+            def is_addr(a):
+                a = peel_all(expand_vars(b, a))
+                return is_call(a, helper)
             for kind, bj, u in uses:
                 if kind == 'call' and re.search(r'(wrapping_sub|checked_sub|saturating_sub)$', short(u['callee'].get('path', ''))):
                     ct = b.call_term(bj, u)
-                    if all(is_call(a, helper) for a in ct[2]):
+                    if all(is_addr(a) for a in ct[2]):
                         continue
                 if kind == 'stmt' and u['r']['k'] == 'bin' and u['r']['op'].startswith('Sub'):
                     tm = b.rvalue_term(u['r'], 0, bj)
-                    if is_call(tm[2], helper) and is_call(tm[3], helper):
+                    if is_addr(tm[2]) and is_addr(tm[3]):
                         continue
                 okuse = False
             (good if okuse else bad).append((b, t['loc'][1]))
